@@ -15,7 +15,7 @@ import ast
 import re
 import itertools
 
-from .loader import AnalysisError, dotted
+from .loader import AnalysisError, FunctionInfo, dotted
 from .interp import Interp, Scenario, Sym, Const, ListV, render, alpha
 from .cfg import CFG, calls_in
 from . import guards
@@ -437,6 +437,22 @@ class RecordModel(object):
                     except Exception:
                         continue
                     self.tuples[k] = fl.replace(',', ' ').split() if isinstance(fl, str) else list(fl)
+        # a record class local to SignatureVerification: `class X(namedtuple(...))` with computed properties / methods
+        self.rec_props = {}        # record class attribute -> FunctionInfo of a property getter defined on the record class
+        for c in self.ci.mro():
+            for st in c.node.body:
+                if not isinstance(st, ast.ClassDef) or st.name in self.tuples:
+                    continue
+                for b in st.bases:
+                    if isinstance(b, ast.Call) and (dotted(b.func) or '').split('.')[-1] == 'namedtuple' and len(b.args) == 2:
+                        try:
+                            fl = ast.literal_eval(b.args[1])
+                        except Exception:
+                            continue
+                        self.tuples[st.name] = fl.replace(',', ' ').split() if isinstance(fl, str) else list(fl)
+                        for d in st.body:
+                            if isinstance(d, ast.FunctionDef) and any(dotted(x) == 'property' for x in d.decorator_list):
+                                self.rec_props[d.name] = FunctionInfo(d, c.module, None)
         self.paths = []            # (explicit verdict given?, {field: text}, collection path)
         for given in (False, True):
             args = {n: Sym('<%s>' % r, nonnull=True) for n, r in zip(self.params, ROLES)}
@@ -642,6 +658,12 @@ class _Rec(object):
     """A record whose verdict field is a concrete flag value."""
     def __init__(self, value, ident):
         self.value, self.ident, self.issues = value, ident, Flag(value)
+        self.other = {r: _Opaque('%s#%d' % (r, ident)) for r in ROLES}
+
+
+class _Opaque(object):
+    def __init__(self, name):
+        self.name = name
 
 
 class _Gen(tuple):
@@ -720,6 +742,21 @@ class RecFn(FlagFn):
                 if isinstance(base, _Rec):
                     if n.attr == 'issues':
                         return base.issues
+                    if n.attr in ROLES:
+                        return base.other[n.attr]
+                    g = self.M.rec_props.get(n.attr)
+                    if g is not None:
+                        # a computed property of the record class: evaluated on this record
+                        if self.depth > 4:
+                            raise _Unknown('recursion')
+                        self.depth += 1
+                        try:
+                            self.block(g.node.body, {g.params[0]: base}, g)
+                        except _Return as r:
+                            return r.v
+                        finally:
+                            self.depth -= 1
+                        return None
                     raise _Unknown('record field %s' % n.attr)
         if isinstance(n, ast.Subscript):
             base = self.ev(n.value, env, f)
@@ -793,11 +830,12 @@ def _values(P):
 
 
 def _row_of(P, v):
-    I, F = bool(v), P(v)
+    I = bool(v)
+    F = I and P(v)          # an empty issue set is never "bad" (a predicate that holds for it is reported by C17.1)
     for i, r in enumerate(ROWS):
         if r['I'] == I and r['F'] == F:
             return i
-    raise AnalysisError('the verdict predicate holds for the empty issue set')
+    raise AnalysisError('no truth-table row for the issue set %s' % v)
 
 
 def _record_lists(P):
@@ -1247,6 +1285,14 @@ def check_one_record(rep, prog, rid):
         end = p[-1]
         n = sum(records(g.nodes[i]) for i in p)
         if end == g.raise_exit.id:
+            continue
+        if end == g.exit.id:
+            # the loop is left by return / break-to-return from inside its body: the remaining pairs are never examined
+            bad += 1
+            lines = [g.nodes[i].lineno for i in p if g.nodes[i].ast is not None]
+            rep.violation(rid, 'PGPKey.verify', 'loop left early',
+                          'the function returns from inside the verification loop (lines %s): signatures after this one are never examined or listed' % lines,
+                          where=fi.where, expected='every collected (signature, subject) pair is examined', found='return inside the loop body')
             continue
         if n != 1:
             bad += 1
